@@ -32,10 +32,15 @@ POOL = {
     'milestone': [True, False],
     'tag': ['red', 'blue', None, '<absent>'],
     'prio': [1, 2, 3, None, '<absent>'],
+    # custom attribute names that embed operator tokens of the filter language
+    'days_in_status': [5, 9, None, '<absent>'],
+    'opt_in': [True, False, '<absent>'],
+    'looks_like_x': ['alpha', 'beta', None, '<absent>'],
 }
+CUSTOM = ('tag', 'prio', 'days_in_status', 'opt_in', 'looks_like_x')
 REGEX = ['^a', 'a$', 'l', '[A-Z]', 'e.a', ' ', '^$', 'b|r']
-STRINGY = ('name', 'resource', 'tag')
-ORDERED = ('id', 'parent_id', 'name', 'resource', 'estimate', 'spent', 'tag', 'prio')
+STRINGY = ('name', 'resource', 'tag', 'looks_like_x')
+ORDERED = ('id', 'parent_id', 'name', 'resource', 'estimate', 'spent', 'tag', 'prio', 'days_in_status')
 SUFFIXES = ['', '_in_', '_not_in_', '_is_none_', '_is_not_none_', '_ne_', '_lt_', '_le_', '_gt_', '_ge_', '_like_', '_not_like_']
 PREDICATES = {
     'even-id': lambda t: t.id % 2 == 0,
@@ -55,7 +60,7 @@ def values_for(attr, n_ids):
 
 @st.composite
 def one_filter(draw, n_ids):
-    attr = draw(st.sampled_from(['id', 'parent_id', 'name', 'resource', 'estimate', 'spent', 'milestone', 'tag', 'prio']))
+    attr = draw(st.sampled_from(['id', 'parent_id', 'name', 'resource', 'estimate', 'spent', 'milestone', 'tag', 'prio', 'days_in_status', 'opt_in', 'looks_like_x']))
     suf = draw(st.sampled_from(SUFFIXES))
     vals = values_for(attr, n_ids)
     if suf in ('_is_none_', '_is_not_none_'):
@@ -68,7 +73,7 @@ def one_filter(draw, n_ids):
         pool = vals + ([None] if attr == 'parent_id' else [])
         return [attr, suf, draw(st.lists(st.sampled_from(pool), min_size=0, max_size=3))]
     if suf in ('_lt_', '_le_', '_gt_', '_ge_'):
-        if attr == 'milestone':
+        if attr in ('milestone', 'opt_in'):
             attr = 'prio'
             vals = values_for(attr, n_ids)
         return [attr, suf, draw(st.sampled_from([x for x in vals if x is not None]))]
@@ -85,7 +90,7 @@ def population(draw, max_tasks=8):
         for a in ('name', 'resource', 'estimate', 'spent', 'milestone'):
             t[a] = draw(st.sampled_from(POOL[a]))
         t['custom'] = {}
-        for a in ('tag', 'prio'):
+        for a in CUSTOM:
             x = draw(st.sampled_from(POOL[a]))
             if x != '<absent>':
                 t['custom'][a] = x
@@ -114,7 +119,7 @@ def query_case(draw, max_tasks=8):
             for a in ('name', 'resource', 'estimate', 'spent', 'milestone'):
                 e[a] = draw(st.sampled_from(POOL[a]))
             e['custom'] = {}
-            for a in ('tag', 'prio'):
+            for a in CUSTOM:
                 x = draw(st.sampled_from(POOL[a]))
                 if x != '<absent>':
                     e['custom'][a] = x
@@ -130,7 +135,7 @@ def attr_value(t_spec, attr, parent):
         return t_spec['id']
     if attr == 'parent_id':
         return parent
-    if attr in ('tag', 'prio', 'color'):
+    if attr in CUSTOM + ('color',):
         return (t_spec.get('custom') or {}).get(attr)
     return t_spec[attr]
 
@@ -210,7 +215,7 @@ def check(case, exclude=True):
             if objs.get(x.id) is not x:
                 ext_spec[id(x)] = next(e for e in case['ext'] if e['id'] == x.id and e['name'] == x.name and e['estimate'] == x.estimate
                                        and e['spent'] == x.spent and e['resource'] == x.resource and e['milestone'] == x.milestone
-                                       and e['custom'] == {k: v_ for k, v_ in x.__dict__.items() if k in ('tag', 'prio')})
+                                       and e['custom'] == {k: v_ for k, v_ in x.__dict__.items() if k in CUSTOM})
         lst_ids = list(range(len(link_elems)))          # positions in the link list stand for the elements
     elif recv == 'wbs.tasks' or recv == 'wbs':
         lst_ids = m.dfs()
